@@ -1336,3 +1336,36 @@ Proof.
   intros x dx Hin. destruct (dup_fresh_lemma E offu offk H1 H2 fuel t E' t' Hn Hd) as (_ & _ & Hc).
   now destruct (Hc x dx Hin).
 Qed.
+
+(* ---- Equal: two independent hashes (each operand with its own seen map) ---- *)
+Lemma beq_sym a b : beq a b = beq b a.
+Proof.
+  destruct (beq a b) eqn:E1, (beq b a) eqn:E2; try reflexivity.
+  - apply beq_eq in E1. subst. now rewrite beq_refl in E2.
+  - apply beq_eq in E2. subst. now rewrite beq_refl in E1.
+Qed.
+
+Lemma Equal_sym fuel E1 t1 E2 t2 : Equal fuel E1 t1 E2 t2 = Equal fuel E2 t2 E1 t1.
+Proof.
+  unfold Equal. destruct (Hash fuel equal_flags E1 t1), (Hash fuel equal_flags E2 t2); try reflexivity.
+  now rewrite beq_sym.
+Qed.
+
+Lemma Equal_refl fuel E t h : Hash fuel equal_flags E t = Some h -> Equal fuel E t E t = Some true.
+Proof. intro H. unfold Equal. rewrite H. now rewrite beq_refl. Qed.
+
+(* replacing both operands by (separate) copies does not change the answer *)
+Lemma Equal_copies E offu offk offu' offk' fa fb fuel a b Ea a' Eb b' v :
+  (forall id id' d d', elookup id E = Some d -> elookup id' E = Some d' -> ut_id d = ut_id d' -> id = id') ->
+  (forall id d, elookup id E = Some d -> names_ok (ut_type d)) ->
+  names_ok a -> names_ok b ->
+  Dup E offu offk fa a = Some (Ea, a') -> Dup E offu' offk' fb b = Some (Eb, b') ->
+  Equal fuel E a E b = Some v -> Equal fuel Ea a' Eb b' = Some v.
+Proof.
+  intros H1 H2 Ha Hb Da Db. unfold Equal.
+  destruct (Hash fuel equal_flags E a) as [ha|] eqn:Eha; [|discriminate].
+  destruct (Hash fuel equal_flags E b) as [hb|] eqn:Ehb; [|discriminate].
+  rewrite (dup_equal_lemma E offu offk H1 H2 equal_flags fa fuel a Ea a' ha Ha Da Eha).
+  rewrite (dup_equal_lemma E offu' offk' H1 H2 equal_flags fb fuel b Eb b' hb Hb Db Ehb).
+  trivial.
+Qed.
